@@ -397,7 +397,12 @@ def run_case(c: api.FnContract, args: dict, call=None):
     raise_conds = {}
     for exc, cnd in c.raises.items():
         try:
-            raise_conds[exc] = bool(eval(_prep(cnd, "<raises>")[1], env))
+            rw_, code_ = _prep(cnd, "<raises>")
+            # a raises condition is a PRE-state formula: old(e) inside it is e (evaluated right here, before the call)
+            olds_ = {}
+            for k, (on, used) in enumerate(rw_.olds):
+                olds_[f"__old{k}"] = _OldFn(on, used, dict(env), {}) if used else eval(compile(ast.fix_missing_locations(ast.Expression(on)), "<old>", "eval"), env)
+            raise_conds[exc] = bool(eval(code_, {**env, **olds_}) if olds_ else eval(code_, env))
         except Exception as ex:  # noqa
             raise_conds[exc] = ex
     # call
